@@ -112,9 +112,11 @@ class Gen:
     def op_reject(self, t):
         """operations the API must reject (C04): the model expects an error and no visible entry"""
         r = self.r
-        k = r.choice(['over-cap', 'over-cap', 'long-topic-batch', 'long-topic-append'] + (['over-10g'] if self.p.get('allow_10g') else []))
+        k = r.choice(self.p.get('reject_kinds') or (['over-cap', 'over-cap', 'long-topic-batch', 'long-topic-append'] + (['over-10g'] if self.p.get('allow_10g') else [])))
         self.features.add('reject:' + k)
-        if k == 'over-cap':
+        if k == 'empty-batch':
+            self.emit('batch', t=t, entries=[], expect='any')
+        elif k == 'over-cap':
             self.emit('batch', t=t, entries=[[self.newtag(), max(r.choice([0, 16, 100]), self.min_len)]], rep=r.choice([2001, 2001, 2500]), expect='err')
         elif k == 'over-10g':
             self.emit('batch', t=t, entries=[[self.newtag(), 1 << 30]], rep=11, expect='err')
@@ -227,6 +229,12 @@ class Gen:
         nops = r.randint(*p.get('nops', (40, 120)))
         w_app, w_bat, w_read, w_cnt, w_re, w_rs, w_mark = p.get('op_w', [5, 2, 5, 1, 0, 0, 0])
         w_rej, w_fault = p.get('reject_w', 0), p.get('fault_w', 0)
+        # optional prelude: a topic's very first operation hands out a block without writing an entry (rejected / empty batch), so
+        # that later blocks of other topics lie physically behind an allocated-but-unwritten block
+        for t in self.topics:
+            if r.random() < p.get('prelude_alloc_only', 0):
+                self.op_reject(t)
+                self.features.add('prelude-alloc-only')
         for _ in range(nops):
             t = r.choice(self.topics)
             k = r.choices(['append', 'batch', 'read', 'count', 'reopen', 'restart', 'marker', 'reject', 'fault'],
